@@ -439,10 +439,47 @@ Qed.
 (* ------------------------------------------------------------------------------------------ *)
 (* the oracle theorem                                                                          *)
 
+(* every enumerated segmentation is a segmentation of the stream, and there is at least one *)
+Lemma segmentations_concat : forall l sg, In sg (segmentations l) -> concat sg = l.
+Proof.
+  induction l as [|x r IH]; intros sg Hin.
+  - cbn in Hin. destruct Hin as [<-|[]]. reflexivity.
+  - cbn [segmentations] in Hin. destruct r as [|y r'].
+    + cbn in Hin. destruct Hin as [<-|[]]. reflexivity.
+    + apply in_flat_map in Hin as (sg0 & Hsg0 & Hin). specialize (IH sg0 Hsg0).
+      destruct sg0 as [|s ss].
+      * cbn in Hin. destruct Hin as [<-|[]]. cbn in IH. discriminate IH.
+      * cbn in Hin. destruct Hin as [<-|[<-|[]]]; cbn [concat app] in *; rewrite IH; reflexivity.
+Qed.
+
+Lemma segmentations_nonempty : forall l, segmentations l <> [].
+Proof.
+  induction l as [|x r IH]; [discriminate|]. cbn [segmentations]. destruct r as [|y r']; [discriminate|].
+  destruct (segmentations (y :: r')) as [|sg0 rest]; [contradiction|].
+  cbn [flat_map]. destruct sg0; discriminate.
+Qed.
+
+Theorem all_segmentations_agree o stream :
+  filter (fun r => negb (list_eqb r (render (drain_all o stream))))
+         (map (fun sg => render (feed_all o sg)) (segmentations stream)) = [].
+Proof.
+  pose proof (segmentations_concat stream) as Hc. induction (segmentations stream) as [|sg l IH]; [reflexivity|].
+  cbn [map filter]. rewrite segments, (Hc sg) by (left; reflexivity). rewrite list_eqb_refl. cbn [negb].
+  apply IH. intros sg' Hin. apply Hc. right; exact Hin.
+Qed.
+
 Theorem oracle_holds c : valid c -> known c = 0 -> oracle c (run c) = true.
 Proof.
-  intros _ _. destruct c as [mms msl segs|mc msgs ks]; [|apply send_oracle].
-  cbn [run oracle]. rewrite segments, list_eqb_refl. reflexivity.
+  intros _ _. destruct c as [mms msl segs|mms msl stream|mc msgs ks]; [| |apply send_oracle].
+  - cbn [run oracle]. rewrite segments, list_eqb_refl. reflexivity.
+  - cbn [run oracle]. rewrite all_segmentations_agree. cbn [length Z.of_nat].
+    set (ref := render (drain_all (mk_cfg mms msl) stream)).
+    set (n := Z.of_nat (length (map (fun sg => render (feed_all (mk_cfg mms msl) sg)) (segmentations stream)))).
+    replace (ref ++ [SEP; n; 0]) with ((ref ++ [SEP; n]) ++ [0]) by (rewrite <- app_assoc; reflexivity).
+    rewrite last_app_single, removelast_app_single.
+    replace (ref ++ [SEP; n]) with ((ref ++ [SEP]) ++ [n]) by (rewrite <- app_assoc; reflexivity).
+    rewrite last_app_single. cbn [Z.eqb andb]. apply Z.ltb_lt. unfold n. rewrite map_length.
+    pose proof (segmentations_nonempty stream). destruct (segmentations stream); [contradiction|cbn [length]; lia].
 Qed.
 
 Example valid_example :
